@@ -38,6 +38,10 @@ class Eval(Contract):
 
     def result(self, S, env):
         c = env["coordinates"]
+        if S.ex.decide(S.bool("user_eval_raises")):
+            # the user's function may fail for a point (a fault inside the evaluation): the call is aborted with the user's exception
+            from pyvc.engine import RaiseEx
+            raise RaiseEx("UserEvalError", S.ex.fn)
         return Opaque(EVAL(c.term))
 
     def post(self, S, old, env, result):
@@ -72,6 +76,13 @@ class CallSingle(Contract):
         c = env["coordinates"].term
         return [("single-point", z3.And(P.LEN(c) >= 1, P.ISSCALAR(P.ITEM(c, 0)))),
                 ("cache-sound", cache_sound(s["f_dict"])), ("old-cache-sound", cache_sound(s["old_f_dict"]))]
+
+    def post_raise(self, S, old, env, exc_name):
+        if exc_name != "UserEvalError":
+            return None
+        so, s = old["self"].fields, env["self"].fields
+        return [Cl("a-failed-evaluation-leaves-cache-and-counter-untouched", z3.And(s["f_dict"].dom == so["f_dict"].dom, s["f_dict"].val == so["f_dict"].val), prop=True),
+                Cl("cache-stays-sound-after-a-failed-evaluation", cache_sound(s["f_dict"]), prop=True)]
 
     def post(self, S, old, env, result):
         so, s = old["self"].fields, env["self"].fields
